@@ -75,6 +75,14 @@ def run(ck):
     ck.sample_lines(files[0], 3, skip=40)
     # 4. spec -> impl
     edges(ck)
+    # 5. in the composed machine: guest programs that poll, echo, mask and acknowledge through the MMIO registers
+    #    while the host calls the API between slices; mailbox state, status registers as the guest reads them,
+    #    ICU request/latches, handler entry and every host callback must be those of System.tla at every slice
+    if fixed():
+        from props import sys_common
+        ck.build('sys_rec')
+        sfiles = sys_common.record(ck, ck.pick(4, 16), ck.pick(4, 12), tag='sysio', mode='io')
+        sys_common.validate(ck, sfiles)
     ck.extra_cov['trace_cfg'] = trace_cfg()
     ck.assumptions += ['Apbp.tla / ApbpSys.tla are a faithful reading of the C14 statement and of src/apbp.md '
                        '(reviewed by hand)',
